@@ -338,6 +338,11 @@ class SQLiteBuildDB : public BuildDB {
     (void)result; // use the variable if we're building without asserts
     assert(result == SQLITE_OK && "The database connection could not be closed. That means there are prepared statements that are not finalized, data blobs that are not closed or backups not finished.");
     db = nullptr;
+
+    // Cached key IDs are only meaningful while the connection (and its view of
+    // the file) is held: the database may be recreated before it is reopened.
+    engineKeyIDs.clear();
+    dbKeyIDs.clear();
   }
 
 public:
